@@ -212,7 +212,6 @@ VMSG = {
     # component-wise interpolation (less common validator styles)
     "query": lambda u: f"signed query not permitted here: {urlsplit(u).query}",
     "fragment": lambda u: f"unexpected fragment #{urlsplit(u).fragment} for {urlsplit(u).hostname}",
-    "upper": lambda u: f"NOT ALLOWED: {u.upper()}",
 }
 
 
@@ -313,9 +312,10 @@ def oracle(ctx: Ctx, script: dict[str, Any], x: V.Exec) -> Any:
     # O5 result
     if w["hang"]:
         ctx.fail(f"hang:{path}:{_fault_of(script)}", f"fetch never completes (no pending I/O, no timer); script {script.get('name')}", rep)
-    if res is not None and not script.get("unjudged") and bytes(res) != o.raw:
+    if res is not None and not script.get("unjudged") and (o.raw is None or bytes(res) != o.raw):
         ctx.fail(f"wrong-bytes:{path}:{_fault_of(script)}",
-                 f"returned {len(res)} bytes != the object's {len(o.raw)} decoded bytes (stored {len(o.stored)}); script {script.get('name')}", rep)
+                 f"returned {len(res)} bytes != the object's {'undecodable' if o.raw is None else len(o.raw)} decoded bytes (stored {len(o.stored)}); "
+                 f"script {script.get('name')}", rep)
     # O6 secrets
     secrets = dict(O.url_secrets(script["url"]))
     secrets.update(o.hop_secrets())
@@ -324,28 +324,33 @@ def oracle(ctx: Ctx, script: dict[str, Any], x: V.Exec) -> Any:
         text = "\n".join(_error_texts(exc))
         for kind, val in secrets.items():
             if val in text:
-                ctx.fail(f"secret-leak:exception:{type(exc).__name__}:{kind}:{_leak_site(script, o, exc)}",
+                ctx.fail(f"secret-leak:exception:{type(exc).__name__}:{_part(kind)}:{_leak_site(script, o, exc)}",
                          f"{kind} of the URL appears in the raised {type(exc).__name__}: {text[:300]!r}", rep)
     for line in w["logs"]:
         for kind, val in secrets.items():
             if val in line:
-                ctx.fail(f"secret-leak:log:{kind}", f"{kind} appears in a log record: {line[:300]!r}", rep)
+                ctx.fail(f"secret-leak:log:{_part(kind)}", f"{kind} appears in a log record: {line[:300]!r}", rep)
     out_cls = "ok" if res is not None else ("hang" if w["hang"] else type(exc).__name__)
     return (path, out_cls, len(o.requests), tuple(sorted({(r.cls, r.status or 0) for r in o.requests})), len(w["logs"]))
 
 
 def _leak_site(script: dict[str, Any], o: O.Origin, exc: BaseException) -> str:
-    """Stable name of the input class of a leaking error: validator message style, or the connection fault."""
+    """Stable name of the input class of a leaking error: validator message style, the transport fault that was
+    passed through, or (for errors the fetcher built itself) the last response status."""
     if isinstance(exc, ValueError) and "URL rejected" in str(exc):
         return "validator-msg-" + script.get("vmsg", "full")
+    for e, site in o.raised:
+        if e is exc:
+            return "passthrough-" + site
     last = o.requests[-1] if o.requests else None
-    for sec in ("probe", "data", "chunks"):
-        for sp in _walk_specs(script.get(sec) or {}):
-            if sp.get("exc"):
-                return f"{sec}-exc-{sp['exc']}"
-            if sp.get("end") and sp.get("cut") is not None:
-                return f"{sec}-midbody-{sp['end']}"
-    return "status-" + str(last.status if last else None)
+    return "built-after-status-" + str(last.status if last else None)
+
+
+def _part(kind: str) -> str:
+    """URL part a secret kind belongs to (finding keys name the part, not the individual parameter)."""
+    if "userinfo" in kind or "password" in kind:
+        return "userinfo"
+    return "query" if "query" in kind else ("fragment" if "fragment" in kind else kind)
 
 
 def _walk_specs(sec: dict[str, Any]) -> Iterator[dict[str, Any]]:
@@ -557,13 +562,15 @@ def family_a3(ctx: Ctx) -> Iterator[tuple[dict[str, Any], list[tuple[str, dict[s
     # the initial URL itself is rejected (plain http), every message style
     for vm in VMSG:
         for ui in (False, True):
-            shape = {"kind": "http", "userinfo": ui, "query": True, "fragment": True}
+            shape = {"kind": "http", "userinfo": ui, "query": True, "fragment": True, "presigned_query": ui}
             base = {"fam": "A3", "name": f"A3/http/ui{ui}/{vm}", "cfg": dict(CFG_A), "url": shape, "obj": {"n": 10}, "chain": {"hops": [], "on": "all"},
                     "probe": {}, "tag": "initial-rejected", "vmsg": vm, "sched": {"dts": [0], "hold": False}}
             yield base, [("d", {"st": 200, "cl": "true", "piece": 3})]
     # no validator configured at all: everything else must still hold
     for kind in ("head", "presigned"):
         for cname, chain in chains(True):
+            if any(h.startswith("evil") for h in chain["hops"]):
+                continue  # without a validator nothing is "rejected"; the bait host is not part of the object
             base = {"fam": "A3", "name": f"A3/novalidator/{kind}/{cname}", "cfg": dict(CFG_A), "url": dict(FULL_URL, kind=kind), "obj": {"n": 10},
                     "chain": chain, "probe": {}, "tag": "noval-" + cname[:8], "validator": False, "sched": {"dts": [0], "hold": False}}
             yield base, [("d", {"st": 200, "cl": "true", "piece": 3})]
@@ -576,6 +583,7 @@ CHUNK_FAULTS: list[tuple[str, dict[str, Any], str | None]] = [
     ("short", {"mode": "short"}, "range-short"),
     ("long", {"mode": "long"}, "range-long"),
     ("longjunk", {"mode": "longjunk", "extra": 7}, "range-long"),
+    ("rest", {"mode": "rest"}, "range-long"),
     ("empty", {"mode": "empty"}, "range-short"),
     ("shift", {"mode": "shift"}, "range-shift"),
     ("badtotal", {"cr": "badtotal"}, "content-range-total"),
@@ -616,6 +624,15 @@ def family_b(ctx: Ctx) -> Iterator[tuple[dict[str, Any], list[tuple[str, dict[st
             for mult in (2.0, 0.5):
                 yield mk("honest4", 14, {}, None, "honest4", kind=kind, mult=mult, maxf=16, hold=False), dvar
         yield mk("honest", 10, {}, None, "honest", hash_="desc", mult=0.5), dvar
+        yield mk("honest4", 14, {}, None, "honest4", mult=2.0, maxf=16, hold=True), dvar
+        yield mk("honest4", 14, {}, None, "honest4", mult=2.0, maxf=16, hold=False, dts=(0, D, 4 * D)), dvar
+        yield mk("honest", 10, {}, None, "honest", mult=0.5, dts=(0, D, 4 * D)), dvar
+        # 4 chunks, multiplier 2.0: a hedge needs three completions and a straggler slower than 2x the median
+        for fname, fault, lie in CHUNK_FAULTS:
+            for scope in ("", "#0"):
+                retrying = fname in ("exc-reset", "exc-disc", "mid-reset")
+                yield mk(f"{fname}@4-7{scope}/4chunks", 14, {"4-7" + scope: fault}, lie, fname, mult=2.0, maxf=16, hold=False,
+                         dts=(0,) if retrying else (0, D)), dvar
     # 2. one faulty range, on every attempt or on the first attempt only (so that a hedge or the retry succeeds)
     ranges10 = ("0-3", "4-7", "8-9")
     for fname, fault, lie in CHUNK_FAULTS:
@@ -623,7 +640,7 @@ def family_b(ctx: Ctx) -> Iterator[tuple[dict[str, Any], list[tuple[str, dict[st
             if q and ri == 1 and fname not in ("st404", "short", "shift", "stall"):
                 continue
             for scope in ("", "#0"):
-                retrying = fname in ("exc-reset", "exc-disc")
+                retrying = fname in ("exc-reset", "exc-disc", "mid-reset")  # fetch_url retries the whole fetch: two explorations multiply
                 for mult in ((0.5,) if q else (0.5, 2.0)):
                     hold = not retrying and not (q and scope == "#0")
                     dts: tuple[float, ...] = (0,) if retrying else (0, D)
@@ -680,7 +697,7 @@ def run_script(ctx: Ctx, script: dict[str, Any]) -> tuple[dict[str, int], set[st
         reached = bool(o.requests) or bool(o.validated)
         nt = (script["fam"], outcome[0], _fault_of(script), outcome[1]) if reached else None
         sample = None
-        if n == 1 and ctx.evaluations % 997 == 0:
+        if n == 1 and ctx.extra["scripts"] % 701 == 0:
             sample = {"script": script["name"], "choices": x.choices, "requests": [(r.method, r.cls, r.range, r.status, r.pulled) for r in o.requests][:12],
                       "outcome": outcome[1]}
         ctx.case(sample=sample, nontrivial=nt, outcome=(script["fam"], _fault_of(script), outcome))
